@@ -152,3 +152,66 @@ def c09(tier):
 
 
 CHECKS["C09"] = c09
+
+
+BIN_CFG = """SPECIFICATION {spec}
+CONSTANTS
+  Keys <- {keys}
+  Vals <- {vals}
+  LookupKeys <- {look}
+  MaxLive = {maxlive}
+{inv}
+{prop}
+VIEW {view}
+{emit}
+CHECK_DEADLOCK FALSE
+"""
+BIN12 = ["Canonical", "MapOK", "PrefixFree", "EmptyIsBlank", "Readable", "PastRootsReadable"]
+BIN13 = ["BranchOrRefusal", "BranchConfirms", "BranchUnforgeable", "ExistsIffPrefix", "TrieNodesExact",
+         "WitnessSound", "WitnessSufficient", "WitnessRefusal"]
+
+
+def bin_cfg(spec="SpecL5", keys="KSmall", vals="V2", look="LSmall", maxlive=3, inv=BIN12, prop=("RefusalRule", "AppendOnly"),
+            view="View", emit="ACTION_CONSTRAINT Emit"):
+    return BIN_CFG.format(spec=spec, keys=keys, vals=vals, look=look, maxlive=maxlive, view=view, emit=emit,
+                          inv="\n".join("INVARIANT " + i for i in inv), prop="\n".join("PROPERTY " + p for p in prop))
+
+
+def c12(tier):
+    rep = Report("C12", tier, LEVEL)
+    rep.assumptions += ["keys are whole bytes, 1-3 (4) bytes long; hash = identity in the model; database is a dict"]
+    R = "harness.binary:replay_line"
+    if tier == "quick":
+        run_s2c(rep, "MC_Binary", bin_cfg(spec="SpecL5", view="ViewFull"), R)
+        run_s2c(rep, "MC_Binary", bin_cfg(spec="Spec", keys="KFull", look="LFull", vals="V3", maxlive=5,
+                                          inv=BIN12 + ["EmitSt"], emit=""), R, simulate=dict(num=480, depth=14))
+    else:
+        run_s2c(rep, "MC_Binary", bin_cfg(spec="SpecL6", keys="KFull", look="LFull", vals="V3", maxlive=4), R)
+        run_s2c(rep, "MC_Binary", bin_cfg(spec="SpecL6", view="ViewFull"), R)
+        run_s2c(rep, "MC_Binary", bin_cfg(spec="Spec", keys="KFull", look="LFull", vals="V3", maxlive=6,
+                                          inv=BIN12 + ["EmitSt"], emit=""), R, simulate=dict(num=12000, depth=18))
+    need(rep, ["last:set-refused", "last:delsub", "last:del", "has-kv", "has-branch", "has-leaf"])
+    return rep.finish()
+
+
+def c13(tier):
+    rep = Report("C13", tier, LEVEL)
+    rep.assumptions += ["keys / prefixes are whole bytes; corrupted branches are built from the genuine branch "
+                        "(node removed, truncated, node altered, branch of another key) and a menu of claimed values"]
+    R = "harness.binary:replay_line"
+    inv = BIN13 + ["EmitSt13"]
+    if tier == "quick":
+        run_s2c(rep, "MC_Binary", bin_cfg(spec="SpecL5", inv=inv, prop=(), emit=""), R)
+        run_s2c(rep, "MC_Binary", bin_cfg(spec="Spec", keys="KFull", look="LFull", vals="V2", maxlive=5, inv=inv,
+                                          prop=(), emit=""), R, simulate=dict(num=96, depth=12))
+    else:
+        run_s2c(rep, "MC_Binary", bin_cfg(spec="SpecL6", keys="KFull", look="LFull", vals="V2", maxlive=4, inv=inv,
+                                          prop=(), emit=""), R)
+        run_s2c(rep, "MC_Binary", bin_cfg(spec="Spec", keys="KFull", look="LFull", vals="V3", maxlive=6, inv=inv,
+                                          prop=(), emit=""), R, simulate=dict(num=2400, depth=14))
+    need(rep, ["branch-refused", "witness-refused", "has-kv", "has-branch", "calls:if_branch_valid"])
+    return rep.finish()
+
+
+CHECKS["C12"] = c12
+CHECKS["C13"] = c13
